@@ -453,6 +453,8 @@ fn run_system(sc: &ScenarioH, w: &WorldH) -> Result<RunOut, String> {
         let mut account_items_pushed = 0u64;
         let mut commands_pushed = 0u64;
         let mut cancel_filters: Vec<FilterB> = Vec::new();
+        // per instrument: (fills pushed so far, their common side if they all had the same one)
+        let mut trade_sides: Vec<(u32, Option<bool>)> = vec![(0, None); w.n_inst()];
         let mut close_filters: Vec<FilterB> = Vec::new();
         let linked = |e: usize| sc.untraded != Some(e);
         for (k, st) in sc.steps.iter().enumerate() {
@@ -545,6 +547,19 @@ fn run_system(sc: &ScenarioH, w: &WorldH) -> Result<RunOut, String> {
                 KindH::AcctTrade { inst, buy, qty, price, fee } => {
                     if *inst >= w.n_inst() || !linked(w.inst_ex[*inst]) {
                         continue;
+                    }
+                    // a fill report with quantity zero is only pushed while the instrument certainly
+                    // holds a position on that side (every earlier fill had this side): a zero-quantity
+                    // fill that *opens* a position makes the engine divide by zero later (DESIGN.md
+                    // section 7, noted - no claimed property speaks about it)
+                    if *qty == 0 && !(trade_sides[*inst].0 > 0 && trade_sides[*inst].1 == Some(*buy)) {
+                        continue;
+                    }
+                    trade_sides[*inst].0 += 1;
+                    if trade_sides[*inst].0 == 1 {
+                        trade_sides[*inst].1 = Some(*buy);
+                    } else if trade_sides[*inst].1 != Some(*buy) {
+                        trade_sides[*inst].1 = None;
                     }
                     let e = w.inst_ex[*inst];
                     let ii = &w.instruments.instruments()[*inst];
@@ -904,7 +919,15 @@ impl Sim for SimH {
             } else if r < 84 {
                 KindH::Trading { enabled: rng.chance(1, 2) }
             } else if r < 87 {
-                KindH::AcctTrade { inst: rng.usize(n_inst), buy: rng.chance(1, 2), qty: rng.range(1, 3), price: rng.range(50, 150), fee: rng.range(0, 2) }
+                KindH::AcctTrade {
+                    inst: rng.usize(n_inst),
+                    buy: rng.chance(1, 2),
+                    // (audit runs: now and then a fill report with quantity zero)
+                    qty: if self.prop == PropH::C10 && rng.chance(1, 10) { 0 } else { rng.range(1, 3) },
+                    price: rng.range(50, 150),
+                    // (negative = maker rebate)
+                    fee: rng.range(-1, 2),
+                }
             } else if r < 90 {
                 KindH::AcctBalance {
                     asset: rng.usize(n_assets),
